@@ -2,7 +2,6 @@
 obligation files and the in-Coq correspondence evaluation (cases embedded as a
 Gallina list, `Eval vm_compute` printing (index, code) pairs)."""
 import concurrent.futures
-import fcntl
 import os
 import re
 import subprocess
@@ -24,15 +23,12 @@ class CoqError(Exception):
 
 def ensure_built(jobs=16, timeout=1800, targets=()):
     """`make [targets]` in coq/ under a lock (all files when no target is given). Returns (ok, log)."""
-    lock = open(os.path.join(COQDIR, ".build.lock"), "w")
-    fcntl.flock(lock, fcntl.LOCK_EX)
     try:
         r = subprocess.run(["bash", os.path.join(COQDIR, "build.sh"), str(jobs)] + list(targets),
                            capture_output=True, text=True, timeout=timeout)
-        return r.returncode == 0, (r.stdout + r.stderr)[-6000:]
-    finally:
-        fcntl.flock(lock, fcntl.LOCK_UN)
-        lock.close()
+    except subprocess.TimeoutExpired:
+        return False, "coq build timed out after %ss" % timeout
+    return r.returncode == 0, (r.stdout + r.stderr)[-6000:]
 
 
 def coqc(path, outdir=None, timeout=600, extra_q=()):
